@@ -8,6 +8,8 @@
 //        R h size            Realloc
 //        F h                 Free
 //        P k n seed          concurrent supporting program: k goroutines, n random ops each, disjoint handles
+//        K lo hi             exact tabulation: fingerprint of alignedIndexes[lo..hi] (the aligned allocator's
+//                            size-class table) against the model's classOf
 //
 // exec annotates each op with the environment's answers it observed (inputs of the model):
 //
@@ -586,6 +588,24 @@ func exec(e *lp.Exec) {
 			fmt.Fprintf(&s.key, "F%s,", bucket(cap(b)))
 			e.Count("ops", "free")
 			e.P("ok")
+		case "K":
+			if len(args) < 2 {
+				bad()
+				continue
+			}
+			lo, _ := strconv.Atoi(args[0])
+			hi, _ := strconv.Atoi(args[1])
+			if lo < 0 || hi > 32768 || lo > hi {
+				bad()
+				continue
+			}
+			tab := make([]byte, 0, hi-lo+1)
+			for sz := lo; sz <= hi; sz++ {
+				tab = append(tab, byte(mempool.VerifAlignedClass(sz)))
+			}
+			e.P("> K %d %d", lo, hi)
+			e.P("cls=%d", lp.Fnv(tab))
+			e.Count("ops", "class-table")
 		case "P":
 			if len(args) < 3 {
 				bad()
